@@ -169,15 +169,19 @@ def record_shape(cls, me):
 
 
 def record_table_view(cls, me):
-    """Call-site view of <cls>.get_table(): exactly the shape the verified postcondition states (cells stay unknown)."""
-    n, w = record_shape(cls, me)
-    return VSeq(n, lambda r: VSeq(E.clamp(w), lambda k: VUnk("cell"), "unk", tag=("row", cls, "get_table")), "row", tag=("result", cls, "get_table"))
+    """Call-site view of <cls>.get_table(): the row count the verified postcondition states; the length of row r is a function
+    of (instance, r) -- weaker than (hence implied by) the verified `one cell per key of the first record`, which callers get as
+    an assumed postcondition at the call; kept indexed by r so that fold / seq_max summaries of callers' loops over the rows keep
+    their shape (a row length that does not mention the index made the harmless `_dim_of(self.get_table())` helper undecided)."""
+    n, _w = record_shape(cls, me)
+    rl = fun(f"{cls}.get_table().rowlen", ext_sort(cls), I, I)
+    return VSeq(n, lambda r: VSeq(E.clamp(rl(me, r)), lambda k: VUnk("cell"), "unk", tag=("row", cls, "get_table")), "row", tag=("result", cls, "get_table"))
 
 
 def record_table_contract(mod, cls):
     """VERIFIED on the real body (round 7; before: the assumed opaque model `XlsSheet.get_table(): a pure function of the
-    instance`).  The call-site view (`call_outcomes`) is the sequence described by the two postconditions, so it is implied by
-    what is proved here; it also implies the former assumption (the shape is a function of the instance)."""
+    instance`).  The call-site view (`call_outcomes`, record_table_view) has the proved row count and row lengths that are a function
+    of (instance, row index): implied by what is proved here; the postconditions themselves are assumed on the result at the call."""
     def view(c):
         r = c.result
         if isinstance(r, VRef) and c.st.obj(r.ref).kind not in ("alist", "list"):
